@@ -1598,6 +1598,11 @@ def run(ctx):
     coq_ok = False
     if not os.environ.get("C14_SKIP_COQ"):
         coq_ok = vlib.standard_coq_obligations(ctx, "Props.C14", THEOREMS, vlib.STD_AXIOMS)
+        # "everywhere" with the schema quantifier closed on the converter fragment (Props/C14F.v over
+        # Algo/ConvertS.v: replace / convert / patch in the converter model, tied to the real converter under
+        # settings by K3 exact term equality)
+        import convert_check
+        convert_check.convert_obligations(ctx, "C14")
     we_bad = []
     if coq_ok:
         jobs, jidx = [], []
